@@ -64,6 +64,13 @@ def units(tier, seed):
                 for fields in combinations(G.FIELDS, k):
                     out.append(dict(kind="ace", cfg=ci, base=bi, fields=list(fields)))
     out.append(dict(kind="ace_standard"))
+    for plat in ("asa", "ios", "nxos"):
+        for pname in ("tcp", "udp"):
+            for ver in (G.VERSIONS if plat != "asa" else ("",)):
+                for port_nr in (False, True):
+                    for part in ("ace", "containers"):
+                        out.append(dict(kind="ace_names", platform=plat, proto=pname, version=ver,
+                                        port_nr=port_nr, part=part))
     n = len(acl_items(seed))
     for plat in G.PLATFORMS:
         for cls in ("Acl", "AceGroup"):
@@ -408,6 +415,42 @@ class _M:
 
     def __repr__(self):
         return repr(self.rule)
+
+
+def _ace_names(unit, ctx):
+    """Every port number that has a name in ANY table (and every name of this configuration), on
+    the source and on the destination side of an entry, through Ace / AceGroup / Acl - platform asa
+    included: what is rendered (name or number) must be read back at that position."""
+    from vf.refsem import golden
+
+    plat, pname, ver = unit["platform"], unit["proto"], unit["version"]
+    numbers = sorted(set(golden.PORTS[pname].values()) | {1, 4000, 65535})
+    names = sorted(G.port_vocab(plat, ver)[pname])
+    head = "ip access-list extended A" if plat != "nxos" else "ip access-list A"
+    for port_nr in (unit["port_nr"],):
+        kw = dict(platform=plat, version=ver, port_nr=port_nr)
+        for tok in [str(n) for n in numbers] + names:
+            forms = [f"permit {pname} any eq {tok} any", f"permit {pname} any any eq {tok}",
+                     f"deny {pname} any any neq {tok} log", f"permit {pname} any any range {tok} 65535",
+                     f"permit {pname} any gt {tok} any lt {tok}"]
+            if unit["part"] == "ace":
+                for text in forms:
+                    _generic("Ace", text, kw, True, ctx)
+                continue
+            for text in forms[1:3]:
+                o = _generic("AceGroup", text, kw, True, ctx)
+                if o is not None and len(o.items) != 1:
+                    ctx.viol("AceGroup:entry_lost", dict(kind="generic", cls="AceGroup", input=text,
+                                                          kwargs=kw, native=True), len(o.items), 1)
+                o = _generic("Acl", head + "\n " + text, kw, True, ctx)
+                if o is not None:
+                    again = _cls("Acl")(o.line, **kw)
+                    if len(o.items) != 1 or len(again.items) != 1:
+                        ctx.viol("Acl:entry_lost_on_reparse", dict(kind="generic", cls="Acl",
+                                                                   input=head + "\n " + text, kwargs=kw,
+                                                                   native=True),
+                                 (len(o.items), len(again.items)), (1, 1))
+    ctx.sample("ace_names", dict(unit, numbers=len(numbers), names=len(names)))
 
 
 def _ace_standard(unit, ctx):
